@@ -196,17 +196,18 @@ Section Agree.
     - unfold named. cbn. destruct (beq name x); reflexivity.
   Qed.
 
-  (** elementByFoodReporter: the same values again, but only for foods the book defines *)
+  (** elementByFoodReporter: the same values again.  Since fix F26 a food the book does not define stands
+      for itself here too (before, [reg -s X -g] dropped X when it was logged directly, and this statement
+      needed the log restricted to the foods the book defines, [defined_only]) *)
   Theorem byfood_values_are_filter : forall d x ln,
-    map snd (byfood_contributions NM d x ln) = map snd (named NM x (contributions NM d (defined_only NM d ln))).
+    map snd (byfood_contributions NM d x ln) = map snd (named NM x (contributions NM d ln)).
   Proof.
-    intros d x ln. unfold byfood_contributions, contributions, defined_only. cbn [ln_elems].
-    induction (ln_elems NM ln) as [|[name v] r IH]; [reflexivity|].
-    cbn [flat_map filter fst snd]. destruct (lookup name d) as [els|] eqn:E.
-    - cbn [flat_map fst snd]. rewrite named_app, !map_app, IH. f_equal.
-      unfold ingredients_of. rewrite E.
-      unfold named. clear. induction els as [|[n w] r IH]; cbn; [reflexivity|].
+    intros d x ln. unfold byfood_contributions, contributions.
+    rewrite named_flat_map, !flat_map_concat_map, !concat_map, !map_map. f_equal.
+    apply map_ext. intros [name v]. cbn [fst snd].
+    unfold ingredients_of. destruct (lookup name d) as [els|].
+    - unfold named. induction els as [|[n w] r IH]; cbn; [reflexivity|].
       destruct (beq n x); cbn; [f_equal|]; exact IH.
-    - exact IH.
+    - unfold named. cbn. destruct (beq name x); reflexivity.
   Qed.
 End Agree.
